@@ -18,6 +18,9 @@ TRUSTED = ['CPython inspect / functools.wraps semantics']
 def cases(rng, tier):
     n = 1500 if tier == 'quick' else 12000
     return C.build_cases(rng, n, calls_per=3, style='kw', tag='c04a') + C.build_cases(rng, n // 4, calls_per=2, style=None, tag='c04b') \
+        + C.scenario_cases(rng, n // 8, style='kw', tag='c04sc') \
+        + C.context_clash_cases(rng, 24 if tier == 'quick' else 96) \
+        + C.unprintable_cases(rng, 16 if tier == 'quick' else 64) + C.receiver_cases(rng, 12 if tier == 'quick' else 48) \
         + C.scenario_cases(rng, n // 8, style='kw', tag='c04sc') + R.reentrant_cases(rng, n // 6, style='kw', tag='c04re') + R.wrapsof_cases(rng, n // 12, style='kw', tag='c04wo') + R.kindchange_cases(rng, n // 12, tag='c04kc') \
         + G.gen_cases(rng, tier) \
         + tv_tree_cases(rng, tier)         # TypeVars + overlapping (nested) calls: compatible values stay accepted
@@ -71,7 +74,7 @@ def judge_tv_transparent(case, impl, model):
     return {'corr': j['corr'], 'pfail': pfail, 'finding': None, 'nontrivial': any(v == 'accept' for v in sp), 'tag': 'tvtree/' + j['tag'], 'why': j['why']}
 
 
-extra_coverage = G.coverage
+extra_coverage = C.T.with_trace_coverage(G.coverage)      # + observed branch traces of the call layer (_calltrace_common)
 
 
 def judge(case, impl, model):
@@ -102,7 +105,7 @@ def judge(case, impl, model):
         why = (why + '; ' if why else '') + f'one-shot iterator arguments consumed: items left {impl["remaining"]}, built with {want}'
         if impl['ran'] >= 1 and not pfail and impl['twin'].get('remaining') == want:     # the body saw a consumed iterator
             pfail = f'checking consumed a one-shot iterator argument: items left {impl["remaining"]}, built with {want} (undecorated twin: untouched) - {C.describe_case(case)}'
-    finding = None
+    finding = C.shared_finding(model) if pfail and corr else None       # unprintableValueEscapes / receiverByKeywordIndexError / receiverNotNamedSelf
     # (the former region bodyMentionsStaticmethod - a body / comment mentioning @staticmethod - was repaired by e6a11f4: no finding is
     # attributed any more; a failure in an `untruthful` / `clazzFails` case is an ordinary violation)
     return {'corr': corr, 'pfail': pfail, 'finding': finding, 'nontrivial': bool(claimed),
@@ -116,3 +119,6 @@ def twins(case):
 
 import _checker_common as _K
 export_state, import_state = _K.export_state, _K.import_state      # the name table travels with replays / amplified runs
+
+
+same_outcome = C.same_outcome      # amplified run: `trace` / `world` are diagnostics of sampled executions
